@@ -31,6 +31,7 @@ struct Table {
 
 thread_local! {
     static ARMED: Cell<bool> = const { Cell::new(false) };
+    static PAUSED: Cell<bool> = const { Cell::new(false) };
     static FILL: Cell<usize> = const { Cell::new(0) };
     static QBYTES: Cell<usize> = const { Cell::new(0) };
     static DOUBLE_FREE: Cell<u64> = const { Cell::new(0) };
@@ -50,7 +51,20 @@ fn slot_of(ptr: usize) -> usize {
 }
 
 fn armed() -> bool {
-    ARMED.try_with(|a| a.get()).unwrap_or(false)
+    ARMED.try_with(|a| a.get()).unwrap_or(false) && !PAUSED.try_with(|a| a.get()).unwrap_or(false)
+}
+
+fn paused_window() -> bool {
+    ARMED.try_with(|a| a.get()).unwrap_or(false) && PAUSED.try_with(|a| a.get()).unwrap_or(false)
+}
+
+/// Suspends recording (for a section that starts threads: blocks then cross threads, which the per-thread table
+/// cannot follow). Frees of blocks recorded earlier by this thread are still accounted for, so no record goes stale.
+pub fn pause() {
+    PAUSED.with(|p| p.set(true));
+}
+pub fn resume() {
+    PAUSED.with(|p| p.set(false));
 }
 
 unsafe fn find(tab: &mut [Entry; SLOTS], ptr: usize) -> Option<usize> {
@@ -102,6 +116,24 @@ unsafe impl GlobalAlloc for TrackAlloc {
     }
 
     unsafe fn dealloc(&self, p: *mut u8, layout: Layout) {
+        if paused_window() {
+            // not recording, but keep the table truthful: a block recorded earlier is released for real
+            let mut forward = true;
+            let _ = TABLE.try_with(|t| {
+                let tab = &mut *t.e.get();
+                if let Some(i) = find(tab, p as usize) {
+                    match tab[i].state {
+                        1 => tab[i].state = 3,
+                        2 => forward = false, // already freed by the program once: do not free the quarantined block again
+                        _ => {}
+                    }
+                }
+            });
+            if forward {
+                System.dealloc(p, layout);
+            }
+            return;
+        }
         if !armed() {
             return System.dealloc(p, layout);
         }
@@ -121,6 +153,10 @@ unsafe impl GlobalAlloc for TrackAlloc {
                     forward = false;
                     return;
                 }
+                if e.state != 1 {
+                    // a record of an earlier life of this address: the block is not ours
+                    return;
+                }
                 if e.size != layout.size() || e.align as usize != layout.align() {
                     LAYOUT_MISMATCH.with(|c| c.set(c.get() + 1));
                     FIRST.with(|f| {
@@ -137,8 +173,7 @@ unsafe impl GlobalAlloc for TrackAlloc {
                     QBYTES.with(|c| c.set(q + e.size));
                     forward = false;
                 } else {
-                    // quarantine full: really free it (with the layout it was allocated with); keep the
-                    // record as 'empty-but-chained' by marking it quarantined with size 0 is wrong, so drop tracking
+                    // quarantine full: really free it (with the layout it was allocated with)
                     tab[i].state = 3;
                     System.dealloc(p, Layout::from_size_align_unchecked(e.size, e.align as usize));
                     forward = false;
@@ -151,7 +186,7 @@ unsafe impl GlobalAlloc for TrackAlloc {
     }
 
     unsafe fn realloc(&self, p: *mut u8, layout: Layout, new_size: usize) -> *mut u8 {
-        if !armed() {
+        if !armed() && !paused_window() {
             return System.realloc(p, layout, new_size);
         }
         // through alloc + copy + dealloc so that the bookkeeping above sees it
@@ -202,6 +237,7 @@ fn describe(f: (usize, usize, usize, usize, usize)) -> String {
 /// starts tracking on this thread
 pub fn arm() {
     reset();
+    PAUSED.with(|p| p.set(false));
     ARMED.with(|a| a.set(true));
 }
 
@@ -216,6 +252,7 @@ fn reset() {
 /// stops tracking, releases the quarantine for real and returns what was seen
 pub fn disarm() -> Report {
     ARMED.with(|a| a.set(false));
+    PAUSED.with(|p| p.set(false));
     let f = FIRST.with(|c| c.get());
     let rep = Report {
         double_free: DOUBLE_FREE.with(|c| c.get()),
